@@ -31,7 +31,9 @@ var c10Defs = []struct {
 }
 
 // geographic sample positions (lon, lat), valid for every definition above
-var c10Pos = [][2]float64{{-93.25, 44.5}, {-91.75, 38.125}, {-94.6, 47.03}}
+// (the second one is written in the 0..360 convention: a longitude outside [-180, 180] is legal input and must be treated
+// the same way on every call)
+var c10Pos = [][2]float64{{-93.25, 44.5}, {268.25, 38.125}, {-94.6, 47.03}}
 
 func internXY(x, y float64, err error, pan string) string {
 	if pan != "ok" {
